@@ -40,7 +40,8 @@ TRUSTED = ["pickle.dump/load is the identity on int, bool, list of [str,int,int]
            "print_guess wrapper (for a loop that polls thread liveness the stand-in's is_alive() is `not should_exit`); thread "
            "timing and stdin are C12's subject",
            "session shards: the model's queue is pop_follow over the pop order the implementation showed (only the order inside groups "
-           "of equal probability is taken from the implementation; C15_follow_pop_ok: it meets the heap contract for every order)"]
+           "of equal probability is taken from the implementation; C15_follow_pop_ok: it meets the heap contract for every order)",
+           "translator tie of the session loop: harness/translate_session.py (ast -> Gallina, fail closed; accepted subset and what it does not model in its docstring) and the meaning coq/theories/SessionRt.v gives to `while`, break, try/except OSError, `if limit:` and `x is None`; every collaborator of CrackingSession.run / _save_session (queue, grammar object with quit flag and OMEN counters, save configuration and file, keyboard thread) is an operation on an abstract world: the translated text equals SessionModel.m_run for every world (C12_source_run_is_model), and the property theorems instantiate the world with the collaborators of Session.v (SessionModel.sworld) or constrain it by a contract (quiet_world)"]
 ASSUMES = ["wf_tables G, first_below_max G", "a further pre-terminal is popped after the interrupted level (else nothing is saved: R18, "
            "C15_last_level_not_saved)",
            "C15_then_rest / C15_tied_level_repeats: well-formed ruleset (NextSpec.wf), any two queues meeting the heap contract "
@@ -727,6 +728,9 @@ def run(ctx):
             "strictly inside the level; distinct by (ruleset, cut list); every such cut is also run through the combined session model "
             "MarkovSession.v (interrupted output, saved max_probability / omen_guess_number / .omn, resumed output and pop sequence "
             "compared exactly, the model's queue following the implementation inside groups of equal probability)")
+    # translator tie of the session-level bookkeeping (_save_session = sess_quit, the --load prologue = sess_restore)
+    import session_tie
+    corr.append(session_tie.obligation("session"))
     return {"evaluations": evaluations, "distinct_nontrivial": nontrivial, "rule": rule, "samples": samples,
             "corr": corr, "violations": vio, "dist": dict(dist)}
 
